@@ -139,13 +139,16 @@ impl Handler for H12 {
 }
 
 fn gen_world(rng: &mut Rng, seed: u64) -> World {
-    let n = rng.usize(1, 6);
-    let dcs = rng.usize(1, 3.min(n));
+    // a quarter of the worlds are "rack-heavy": 5..8 nodes in one or two datacenters with two racks each and
+    // replication factors above the rack count (racks repeat among the replicas)
+    let rack_heavy = rng.chance(1, 4);
+    let n = if rack_heavy { rng.usize(5, 8) } else { rng.usize(1, 6) };
+    let dcs = if rack_heavy { rng.usize(1, 2) } else { rng.usize(1, 3.min(n)) };
     let all_scylla = rng.chance(2, 3);
     let mut nodes = Vec::new();
     for i in 0..n {
         let dc = format!("dc{}", i % dcs);
-        let rack = format!("r{}", rng.below(3));
+        let rack = format!("r{}", rng.below(if rack_heavy { 2 } else { 3 }));
         let vn = rng.usize(1, 4);
         let tokens: Vec<i64> = (0..vn).map(|_| rng.u64() as i64).collect();
         let sharded = all_scylla && rng.chance(4, 5);
@@ -159,7 +162,13 @@ fn gen_world(rng: &mut Rng, seed: u64) -> World {
     }
     let mut up: Vec<bool> = (0..n).map(|_| rng.chance(5, 6)).collect();
     up[0] = true; // the contact point
-    let strategy = if dcs > 1 && rng.chance(2, 3) {
+    let strategy = if rack_heavy {
+        let mut m = BTreeMap::new();
+        for d in 0..dcs {
+            m.insert(format!("dc{d}"), rng.usize(2, 4));
+        }
+        Strat::Nts(m)
+    } else if dcs > 1 && rng.chance(2, 3) {
         let mut m = BTreeMap::new();
         for d in 0..dcs {
             m.insert(format!("dc{d}"), rng.usize(0, 3));
@@ -236,7 +245,24 @@ async fn run_world(w: &World) -> WorldOut {
     let mut tks = KeyspaceDef::simple("tks", 1).with_table(TableDef::new("tt", &[("pk", "bigint")], &[("v", "bigint")]));
     // ScyllaDB reports initial_tablets = 0 for `tablets = {'enabled': true}` keyspaces: tablet-based all the same
     tks.initial_tablets = Some(if w.seed % 3 == 0 { 0 } else { 4 });
-    let spec = ClusterSpec { nodes: w.nodes.clone(), keyspaces: vec![ks, tks], cluster_name: "c12".into() };
+    // sibling keyspaces that nobody queries: the same datacenters with other replication factors (the driver
+    // pre-computes replica sets per (datacenter, factor); one keyspace's placement must not depend on another's)
+    let dc_names: std::collections::BTreeSet<String> = w.nodes.iter().filter_map(|n| n.dc.clone()).collect();
+    let mut keyspaces = vec![ks, tks];
+    for (i, bump) in [1usize, 2].into_iter().enumerate() {
+        let rfs: Vec<(String, usize)> = dc_names
+            .iter()
+            .map(|d| {
+                let base = match &w.strategy {
+                    Strat::Nts(m) => m.get(d).copied().unwrap_or(0),
+                    Strat::Simple(rf) => *rf,
+                };
+                (d.clone(), (base + bump).min(6))
+            })
+            .collect();
+        keyspaces.push(KeyspaceDef::nts(&format!("sib{i}"), &rfs.iter().map(|(k, v)| (k.as_str(), *v)).collect::<Vec<_>>()).with_table(TableDef::new("t", &[("pk", "bigint")], &[("v", "bigint")])));
+    }
+    let spec = ClusterSpec { nodes: w.nodes.clone(), keyspaces, cluster_name: "c12".into() };
     let cluster = MockCluster::start(spec, handler.clone()).await;
     *handler.host_ids.lock().unwrap() = cluster.nodes().iter().map(|n| n.host_id).collect();
     let mut out = WorldOut { build_error: None, ops: vec![], conn_shards: vec![], announced: vec![], violations: vec![], pools_complete: false, refreshed_between_phases: false };
